@@ -1054,6 +1054,18 @@ static json run_plan(const json &plan) {
     out["sched"] = json{{"yields", ss.yields}, {"switches", ss.switches}, {"sig", sig}, {"in_edge", ss.switches_in_edge}, {"in_wrap", ss.switches_in_wrap}, {"transfers", tj}};
   }
   if (has_epi) { epi.ops = &plan["epilogue"]; epi.ctx.id = -2; run_task_ops(&epi); out["epilogue"] = epi.results; }
+  // leave the process-wide library state as every run finds it: whatever this run's history of global
+  // setters left behind is released HERE, inside the run that caused it (so that a defect in that
+  // hand-over is attributed to, and replays with, this plan and not the next one of the worker)
+  {
+    TaskCtx fin; tc = &fin; fin.op = -3;
+#pragma GCC diagnostic push
+#pragma GCC diagnostic ignored "-Wdeprecated-declarations"
+    lib_enter(); econf_reset_security_settings();
+    const char *none[] = {nullptr}; tc->alloc_cls = 1; econf_set_conf_dirs(none); econf_set_conf_dirs(none); tc->alloc_cls = 0; lib_leave();
+#pragma GCC diagnostic pop
+    tc = nullptr;
+  }
   sim_step_budget = ~0ull;
   json tres = json::array(); for (auto &tr : trs) tres.push_back(tr.results);
   if (plan.contains("tasks")) out["tasks"] = tres; else if (!tres.empty()) out["ops"] = tres[0];
